@@ -67,7 +67,7 @@ static void exec_list(const std::vector<TOp> &ops, TLog &log, int rep, std::atom
                    if ((which == VP_IPV4 || which == VP_IPV6 || which == VP_IPADDR) && *d == '[' && e > d + 1 && e[-1] == ']') r = A->part(which, d + 1, e - 1, 0, nullptr);
                    else if (which == VP_TLD) { const char *dot = strrchr(d, '.'); r = A->part(VP_TLD, dot ? dot + 1 : d, e, 0, nullptr); }
                    else if (which == VP_SPECIAL) r = A->part(VP_ASCII_DOMAIN, d, e, 0, nullptr) == 0 ? A->part(VP_SPECIAL, d, e, 0, nullptr) : -1;
-                   else if (which == VP_UTF8_DOMAIN) r = A->part(VP_UTF8_DOMAIN, d, e, op.b, &ir) * 1000 + ir;
+                   else if (which == VP_UTF8_DOMAIN) r = A->part(VP_UTF8_DOMAIN, d, (op.yield && e - d >= 3) ? e - 1 : e, op.b, &ir) * 1000 + ir;   // sometimes a range that stops before the terminator
                    else r = A->part(VP_ASCII_DOMAIN, d, e, 0, nullptr); }
             log.v.push_back((uint64_t) (int64_t) r); if (validations) (*validations)++;
         } break;
